@@ -222,6 +222,61 @@ func checkC01(c c01Case) *evid.Fail {
 			}
 		}
 	}
+	// the other entry points: constructor from text, default variables + Evaluate(), token-list entry
+	allBound := true
+	var unbound func(n *node)
+	unbound = func(n *node) {
+		if n.Op == "var" {
+			found := false
+			for _, b := range c.Vars {
+				if strings.EqualFold(b.Name, identName(n.Tok)) {
+					found = true
+				}
+			}
+			allBound = allBound && found
+		}
+		for _, k := range n.Kids {
+			unbound(k)
+		}
+	}
+	unbound(c.Tree)
+	if wantPanic == nil && len(c.Texts) > 0 && allBound {
+		var r1, r2, r3 string
+		if g := guard(func() {
+			c1, err := calculator.ExpressionCalculatorFromExpression(c.Texts[len(c.Texts)-1])
+			if err != nil {
+				r1 = "error: rejected"
+				return
+			}
+			c1.SetVariantOperations(ops)
+			c1.DefaultFunctions().Add(tupFunction("Tup"))
+			c1.DefaultFunctions().Add(tupFunction("a"))
+			for _, b := range c.Vars {
+				if v := c1.DefaultVariables().FindByName(b.Name); v != nil {
+					v.SetValue(b.V.toVariant())
+				} else {
+					c1.DefaultVariables().Add(variables.NewVariable(b.Name, b.V.toVariant()))
+				}
+			}
+			v, e := c1.Evaluate()
+			r1 = resultRepr(v, e)
+			v, e = c1.EvaluateUsingVariables(nil)
+			r2 = resultRepr(v, e)
+			c3 := calculator.ExpressionCalculatorFromTokens(c1.OriginalTokens())
+			c3.SetVariantOperations(ops)
+			v, e = c3.EvaluateUsingVariablesAndFunctions(makeVars(c.Vars), funcs)
+			r3 = resultRepr(v, e)
+		}); g != nil {
+			g.Msg = fmt.Sprintf("alternative entry points for %q: %s", c.Texts[len(c.Texts)-1], g.Msg)
+			return g
+		}
+		ref := results[len(results)-1]
+		for i, r := range []string{r1, r2, r3} {
+			if r != ref && !(strings.HasPrefix(r, "error") && strings.HasPrefix(ref, "error")) && ref != "PANIC" {
+				return evid.F("entry-points-differ", "%q: SetExpression+EvaluateUsingVariablesAndFunctions gives %s, entry point #%d (FromExpression+Evaluate / EvaluateUsingVariables(nil) / FromTokens) gives %s", c.Texts[len(c.Texts)-1], ref, i+1, r)
+			}
+		}
+	}
 	// the same calculator is then given the expression with the letter case of its string literals flipped:
 	// keywords and identifiers are case-insensitive, the contents of literals are not
 	if flipped, changed := flipLiteralCase(c.Tree); changed && wantPanic == nil {
